@@ -145,7 +145,7 @@ func reachableWithin(from, to *ssa.BasicBlock, comp []int, scc int, avoid *ssa.B
 func init() {
 	core.Register(&core.Rule{
 		Name: "R-CANDLOOP",
-		Doc: "Candidate loops of the reverse strategies do linear total work: in package meta, (1) every backward DFA scan (SearchReverse*, IsMatchReverse of dfa/lazy) called inside a loop has a lower bound that advances with the loop (it depends on a loop-carried variable that is updated inside the loop: the resume position of a match-iteration loop, or the anti-quadratic guard minStart); a constant lower bound lets every candidate scan back to the start of the haystack: candidates x n steps; (2) on every path from a limited scan back to the loop head the guard is updated (a path that keeps it lets the next candidate rescan the same bytes); (3) the branch taken on the 'scan was cut short' signal (SearchReverseLimitedQuadratic) leaves the loop on every path: the fallback it runs is a full O(states x n) search, so running it per candidate is quadratic again. Necessary for C05 (time linear in n for a fixed pattern).",
+		Doc: "Candidate loops of the reverse strategies do linear total work: in package meta, (1) every backward DFA scan (SearchReverse*, IsMatchReverse of dfa/lazy) called inside a loop has a lower bound that advances with the loop (it depends on a loop-carried variable that is updated inside the loop: the resume position of a match-iteration loop, or the anti-quadratic guard minStart); a constant lower bound lets every candidate scan back to the start of the haystack: candidates x n steps; (2) on every path from a limited scan back to the loop head the guard is updated (a path that keeps it lets the next candidate rescan the same bytes); (3) the branch taken on the 'scan was cut short' signal (SearchReverseLimitedQuadratic) leaves the loop on every path: the fallback it runs is a full O(states x n) search, so running it per candidate is quadratic again; (4) a forward scan over the un-resliced haystack that starts at a loop-carried candidate position and can be repeated by the loop - decided for UNANCHORED scans started at the candidate itself (a failure has already covered every start position up to the end) and for anchored scans whose candidates come from a byte-class finder (DigitPrefilter: every byte of a run is a candidate); anchored verification of literal-prefilter candidates and scans of haystack windows are not decided - needs a progress or budget guard: either the next position depends on the scan's result (a match-iteration loop resumes behind the match), or some loop-carried variable that the loop updates is compared with something other than len(haystack) in a branch that leaves the loop (a failure budget, or 'candidate before the end of the last scan'); otherwise every candidate may scan to the end of the haystack: candidates x n steps. Necessary for C05 (time linear in n for a fixed pattern).",
 		Min: 25, NeedSSA: true,
 		Run: func(p *core.Prog) *core.RuleResult {
 			res := &core.RuleResult{}
@@ -166,6 +166,9 @@ func init() {
 							continue
 						}
 						cal := c.Call.StaticCallee()
+						if o4, found := forwardScanObligation(p, fn, b, c, cal, comp, cyclic, kc); found {
+							res.Obligations = append(res.Obligations, o4)
+						}
 						lowIdx, limited, ok := reverseScan(cal)
 						if !ok || lowIdx >= len(c.Call.Args) {
 							continue
@@ -286,4 +289,245 @@ func init() {
 			return res
 		},
 	})
+}
+
+
+var forwardScanMethods = map[string]bool{"SearchAtAnchored": true, "SearchAt": true, "FindAt": true, "Find": true, "IsMatchAt": true, "IsMatch": true, "SearchFirstAt": true,
+	"SearchWithSlotTableAt": true, "SearchAtWithState": true, "SearchWithCapturesAt": true, "SearchWithSlotTableCapturesAt": true}
+
+// forwardScanObligation decides clause (4) for one call.
+func forwardScanObligation(p *core.Prog, fn *ssa.Function, b *ssa.BasicBlock, c *ssa.Call, cal *ssa.Function, comp []int, cyclic map[int]bool, kc *core.KeyCounter) (core.Obligation, bool) {
+	if cal == nil || cal.Signature.Recv() == nil || !forwardScanMethods[cal.Name()] {
+		return core.Obligation{}, false
+	}
+	cpk := ownPkg(cal)
+	if cpk == nil {
+		return core.Obligation{}, false
+	}
+	recv := cal.Signature.Recv().Type().String()
+	isDFA := strings.HasSuffix(cpk.Path(), "/dfa/lazy") && strings.HasSuffix(recv, "lazy.DFA")
+	isVM := strings.HasSuffix(cpk.Path(), "/nfa") && (strings.HasSuffix(recv, "nfa.PikeVM") || strings.HasSuffix(recv, "nfa.BoundedBacktracker"))
+	if !isDFA && !isVM {
+		return core.Obligation{}, false
+	}
+	scc := comp[b.Index]
+	if !cyclic[scc] {
+		return core.Obligation{}, false
+	}
+	// the scan starts at a loop-carried position given as an int argument next to the un-resliced haystack
+	var cand *ssa.Phi
+	var startArg ssa.Value
+	for _, a := range c.Call.Args {
+		if isByteSlice(a.Type()) {
+			if _, resliced := a.(*ssa.Slice); resliced {
+				return core.Obligation{}, false // a window of the haystack: what the scan covers is not decided here
+			}
+		}
+		if !isIntType(a.Type()) {
+			continue
+		}
+		if ph, ok := loopCarried(a, comp, scc, map[ssa.Value]bool{}); ok {
+			cand = ph
+			startArg = a
+		}
+	}
+	if cand == nil {
+		return core.Obligation{}, false
+	}
+	// decided shapes: (a) an UNANCHORED scan (its failure covers every start position up to the end), started at the
+	// candidate itself; (b) an anchored scan whose candidates come from a byte-class finder (every byte of a run is a candidate)
+	anchored := strings.Contains(cal.Name(), "Anchored")
+	if anchored {
+		if !candidateFromByteClassFinder(startArg, 0) {
+			return core.Obligation{}, false
+		}
+	} else if fromReverseScan(startArg, 0) {
+		return core.Obligation{}, false // the start was computed by another engine (reverse scan), not the candidate itself
+	}
+	o := core.Obligation{Key: kc.Key("R-CANDLOOP", core.FuncName(fn), "forward scan "+cal.Name()+" per candidate is bounded"), Pos: p.Pos(c.Pos()), Nontrivial: true}
+	// can the loop repeat the scan? (a path from the call back to its own block inside the SCC)
+	if !reachableWithin(b, b, comp, scc, nil) {
+		o.Status = core.Discharged
+		o.Detail = "the loop is left after the scan on every path"
+		return o, true
+	}
+	// (i) progress by result: a loop-carried position receives a value that depends on the scan's result
+	for _, blk := range fn.Blocks {
+		if comp[blk.Index] != scc {
+			continue
+		}
+		for _, in := range blk.Instrs {
+			ph, ok := in.(*ssa.Phi)
+			if !ok || !isIntType(ph.Type()) {
+				continue
+			}
+			// only variables carried around the loop: phis of a loop head (a block entered from outside the loop)
+			head := false
+			for _, pr := range blk.Preds {
+				if comp[pr.Index] != scc {
+					head = true
+				}
+			}
+			if !head {
+				continue
+			}
+			_, leaves := phiWebLeaves(ph, comp)
+			for _, lf := range leaves {
+				if dependsOnNoCalls(lf.val, c, map[ssa.Value]bool{}) {
+					o.Status = core.Discharged
+					o.Detail = "the next position depends on the scan's result (the loop resumes behind what the scan covered)"
+					return o, true
+				}
+			}
+		}
+	}
+	// (ii) a guard: a loop-carried variable updated in the loop is compared with something other than a length in a branch that leaves the loop
+	for _, blk := range fn.Blocks {
+		if comp[blk.Index] != scc || len(blk.Instrs) == 0 {
+			continue
+		}
+		iff, ok := blk.Instrs[len(blk.Instrs)-1].(*ssa.If)
+		if !ok {
+			continue
+		}
+		bo, ok := iff.Cond.(*ssa.BinOp)
+		if !ok {
+			continue
+		}
+		switch bo.Op {
+		case token.LSS, token.LEQ, token.GTR, token.GEQ:
+		default:
+			continue
+		}
+		leavesLoop := comp[blk.Succs[0].Index] != scc || comp[blk.Succs[1].Index] != scc
+		if !leavesLoop || isLenCall(bo.X) || isLenCall(bo.Y) {
+			continue
+		}
+		for _, side := range []ssa.Value{bo.X, bo.Y} {
+			if ph, ok := loopCarried(side, comp, scc, map[ssa.Value]bool{}); ok && ph != nil {
+				if _, leaves := phiWebLeaves(ph, comp); len(leaves) > 0 {
+					// the guard must not be the bare search position compared with a constant such as 0
+					other := bo.Y
+					if side == bo.Y {
+						other = bo.X
+					}
+					if cst, isC := constInt(other); isC && cst <= 0 {
+						continue
+					}
+					o.Status = core.Discharged
+					o.Detail = "a loop-carried guard (" + ph.Comment + ") is compared in a branch that leaves the loop: the number or extent of repeated scans is bounded"
+					return o, true
+				}
+			}
+		}
+	}
+	o.Status = core.Violated
+	o.Detail = "the forward scan starts at every candidate the loop finds and may run to the end of the haystack; the next candidate does not depend on how far the scan went and no budget or progress guard leaves the loop: k failing candidates cost k x n steps (\\d\\d*-x on a long run of digits)"
+	return o, true
+}
+
+// loopCarried: v is (arithmetic on) a phi of the given SCC.
+func loopCarried(v ssa.Value, comp []int, scc int, seen map[ssa.Value]bool) (*ssa.Phi, bool) {
+	if v == nil || seen[v] {
+		return nil, false
+	}
+	seen[v] = true
+	switch x := v.(type) {
+	case *ssa.Phi:
+		if comp[x.Block().Index] == scc {
+			return x, true
+		}
+		for _, e := range x.Edges {
+			if ph, ok := loopCarried(e, comp, scc, seen); ok {
+				return ph, true
+			}
+		}
+	case *ssa.BinOp:
+		if ph, ok := loopCarried(x.X, comp, scc, seen); ok {
+			return ph, true
+		}
+		return loopCarried(x.Y, comp, scc, seen)
+	case *ssa.Call:
+		// a candidate found from the loop-carried position: prefilter.Find(haystack, pos)
+		for _, a := range x.Call.Args {
+			if isIntType(a.Type()) {
+				if ph, ok := loopCarried(a, comp, scc, seen); ok {
+					return ph, true
+				}
+			}
+		}
+	}
+	return nil, false
+}
+
+// dependsOnNoCalls: v is computed from target through arithmetic, phis, tuples (not through other calls).
+func dependsOnNoCalls(v, target ssa.Value, seen map[ssa.Value]bool) bool {
+	if v == target {
+		return true
+	}
+	if v == nil || seen[v] {
+		return false
+	}
+	seen[v] = true
+	switch x := v.(type) {
+	case *ssa.BinOp:
+		return dependsOnNoCalls(x.X, target, seen) || dependsOnNoCalls(x.Y, target, seen)
+	case *ssa.Phi:
+		for _, e := range x.Edges {
+			if dependsOnNoCalls(e, target, seen) {
+				return true
+			}
+		}
+	case *ssa.Extract:
+		return dependsOnNoCalls(x.Tuple, target, seen)
+	case *ssa.Convert:
+		return dependsOnNoCalls(x.X, target, seen)
+	}
+	return false
+}
+
+
+// candidateFromByteClassFinder: v is (arithmetic on) the result of a Find method of a byte-class prefilter (DigitPrefilter),
+// which reports every byte of a run as a candidate.
+func candidateFromByteClassFinder(v ssa.Value, depth int) bool {
+	if depth > 4 || v == nil {
+		return false
+	}
+	switch x := v.(type) {
+	case *ssa.Call:
+		if cal := x.Call.StaticCallee(); cal != nil && cal.Signature.Recv() != nil && cal.Name() == "Find" && strings.HasSuffix(cal.Signature.Recv().Type().String(), "DigitPrefilter") {
+			return true
+		}
+	case *ssa.BinOp:
+		return candidateFromByteClassFinder(x.X, depth+1) || candidateFromByteClassFinder(x.Y, depth+1)
+	case *ssa.Phi:
+		for _, e := range x.Edges {
+			if candidateFromByteClassFinder(e, depth+1) {
+				return true
+			}
+		}
+	}
+	return false
+}
+
+// fromReverseScan: v is (arithmetic on) the result of a backward DFA scan.
+func fromReverseScan(v ssa.Value, depth int) bool {
+	if depth > 4 || v == nil {
+		return false
+	}
+	switch x := v.(type) {
+	case *ssa.Call:
+		if _, _, ok := reverseScan(x.Call.StaticCallee()); ok {
+			return true
+		}
+	case *ssa.BinOp:
+		return fromReverseScan(x.X, depth+1) || fromReverseScan(x.Y, depth+1)
+	case *ssa.Phi:
+		for _, e := range x.Edges {
+			if fromReverseScan(e, depth+1) {
+				return true
+			}
+		}
+	}
+	return false
 }
